@@ -1,5 +1,6 @@
 (** Correspondence evaluator for C19. Three kinds of cases:
       0  words   : SplitWords, addToQuery, parseQueryString on generated texts
+                   (incl. non-ASCII symbols whose UTF-8 bytes are 0x85 / 0xA0)
       1  fmt     : legacy Reader (plain / with AddLabels) on generated files,
                    Printer over the results, Reader over the printed text
       2  history : uploads through the in-process storage server on sqlite,
@@ -64,6 +65,22 @@ Definition corr_w (c : wcase) : bool :=
   && blist_eqb (split_words (w_query c)) (w_qwords c)
   && (let '(p, qs) := parse_query_string (w_q c) in beq p (w_prefix c) && blist_eqb qs (w_queries c)).
 
+(** SplitWords on a text without quote and backslash, declaratively: the
+    maximal runs of bytes other than ASCII space (0x20) and tab (0x09), in
+    order. No other byte separates words — in particular not 0x85 / 0xA0, which
+    occur inside the UTF-8 encodings of à, Å, 全, U+00A0, U+2003 — so a value the
+    front end emits bare stays one word. *)
+Definition sp_blank (c : byte) : bool := Byte.eqb c x20 || Byte.eqb c x09.
+Definition sp_special (c : byte) : bool := Byte.eqb c x22 || Byte.eqb c x5c.
+Definition sp_emit (acc : bytes) : list bytes := match acc with [] => [] | _ => [rev acc] end.
+Fixpoint sp_fields (q acc : bytes) : list bytes :=
+  match q with
+  | [] => sp_emit acc
+  | c :: q' => if sp_blank c then sp_emit acc ++ sp_fields q' [] else sp_fields q' (c :: acc)
+  end.
+Definition plain_split_ok (q : bytes) (ws : list bytes) : bool :=
+  if existsb sp_special q then true else blist_eqb ws (sp_fields q []).
+
 (** the property, on what the real SplitWords made of the real addToQuery's
     output: the added word comes back as exactly one word, in front of the
     words of the old query *)
@@ -75,7 +92,11 @@ Definition prop_w (c : wcase) : bool :=
       blist_eqb (w_bwords c) (w_add c :: sep ++ w_qwords c)
   end
   (* no word SplitWords returns is empty *)
-  && forallb (fun w => negb (beq w [])) (w_words c).
+  && forallb (fun w => negb (beq w [])) (w_words c)
+  (* words are separated by ASCII space and tab only *)
+  && plain_split_ok (w_q c) (w_words c)
+  && plain_split_ok (w_query c) (w_qwords c)
+  && plain_split_ok (w_built c) (w_bwords c).
 
 (** ** kind 1: fmt *)
 Record fcase := mkF {
